@@ -252,6 +252,61 @@ def lift_module_statements(repo, module, first_pred, last_pred, name, params):
     return fi
 
 
+def lift_function_tail(repo, qual, first_pred, name, params,
+                       last_pred=None):
+    """mechanical extraction of a range of statements of a function: the
+    statements of the body of `qual` from the first one satisfying
+    first_pred to the first later one satisfying last_pred (default: the end
+    of the function) become the body of a synthetic function `qual.<name>`;
+    `params` are its free variables.  Nothing is rewritten."""
+    fi0 = repo.funcs[qual]
+    body = fi0.node.body
+    i0 = next(i for i, n in enumerate(body) if first_pred(n))
+    i1 = len(body) - 1
+    if last_pred is not None:
+        i1 = next(i for i, n in enumerate(body) if i >= i0 and last_pred(n))
+    fn = ast.FunctionDef(
+        name=name,
+        args=ast.arguments(posonlyargs=[], args=[ast.arg(arg=p) for p in
+                                                 params],
+                           kwonlyargs=[], kw_defaults=[], defaults=[]),
+        body=body[i0:i1 + 1], decorator_list=[], returns=None,
+        type_comment=None, type_params=[])
+    fn.lineno = body[i0].lineno
+    fn.end_lineno = body[i1].end_lineno
+    ast.fix_missing_locations(fn)
+    q = qual + '.' + name
+    fi = FuncInfo(q, fn, fi0.module, fi0.cls, fi0.parent, fi0.path)
+    repo.funcs[q] = fi
+    return fi
+
+
+def lift_answer_decoding(repo):
+    """the part of run_languagetool / run_textgears that turns the raw
+    answer of the proofreader (bytes) into a JSON value: from the first
+    top-level statement that calls a `.decode(` method to the last one that
+    does"""
+    out = []
+    for f in ('run_languagetool', 'run_textgears'):
+        qual = 'yalafi.shell.proofreader.' + f
+        q = qual + '.<decode_answer>'
+        if q not in repo.funcs and qual in repo.funcs:
+            def has_decode(n):
+                return any(isinstance(c, ast.Call) and
+                           isinstance(c.func, ast.Attribute) and
+                           c.func.attr == 'decode' for c in ast.walk(n)
+                           ) and not isinstance(n, ast.FunctionDef)
+            body = repo.funcs[qual].node.body
+            idx = [i for i, n in enumerate(body) if has_decode(n)]
+            if idx:
+                last = body[idx[-1]]
+                lift_function_tail(repo, qual, has_decode, '<decode_answer>',
+                                   ['out'], lambda n, last=last: n is last)
+        if q in repo.funcs:
+            out.append(q)
+    return out
+
+
 def _is_assign_to(n, text):
     return isinstance(n, ast.Assign) and ast.unparse(n.targets[0]) == text
 
